@@ -8,8 +8,9 @@ application schema around every load.
 
 import io
 import os
+import shutil
 
-from ..gen import family, packages, texts
+from ..gen import cuts, family, packages, texts
 from ..mon import outcome
 from ..ref import refmatch, refparse
 
@@ -173,10 +174,15 @@ def gen_text(rng, w):
                     adm.append((t, c["name"]))
         return res, adm
 
+    has_main = any(c["name"] == "main" for c in w.model["children"])
+
     def section(t, slotname, depth=0):
         serial[0] += 1
         name = "s%d" % serial[0] if (slotname == "+" or
                                      rng.random() < 0.5) else None
+        if has_main and depth == 0 and rng.random() < 0.25:
+            # the fixed-name abstract slot, with whatever type this is
+            name = rng.choice(["main", "Main"])
         if not friendly and rng.random() < 0.15:
             name = None
         ind = "  " * depth
@@ -280,6 +286,16 @@ def expected(w, text):
     return refmatch.conform_tree(res, refmatch.build_tree(events))
 
 
+def load_path(schema, path):
+    import ZConfig
+    try:
+        config, handler = ZConfig.loadConfig(schema, path)
+    except Exception as e:  # noqa
+        fam, tn, lineno, url = outcome.classify_exception(e)
+        return ("reject", fam, tn, lineno, url, str(e)[:200])
+    return ("ok", outcome.canon_value(config), None, None)
+
+
 class Hook:
     def __init__(self, res):
         self.res = res
@@ -324,10 +340,23 @@ def run_world(ctx, w, hook, rng):
             before = w.subtype_tables()
             hook.phase = "config"
             hook.events = []
-            obs = outcome.load_text(w.schema, text)
+            via = "text"
+            if "%import" in text and rng.random() < 0.3:
+                # the same lines with a balanced range (often holding an
+                # %import) moved into an included file: an %import read in
+                # an included resource counts from that line onward too
+                lay = cuts.cut_text(rng, text)
+                if lay is not None:
+                    via = "include"
+                    d = os.path.join(ctx.tmp, "c12inc")
+                    shutil.rmtree(d, ignore_errors=True)
+                    obs = load_path(w.schema, lay.write(d))
+                    res.count("loads_via_include")
+            if via == "text":
+                obs = outcome.load_text(w.schema, text)
             hook.phase = "schema"
             after = w.subtype_tables()
-            case = {"xml": w.xml, "text": text, "load_index": li,
+            case = {"xml": w.xml, "text": text, "load_index": li, "via": via,
                     "components": [[n, ts] for n, ts in w.components],
                     "schema_level": list(w.schema_level)
                     if w.schema_level else None, "model": w.model}
